@@ -1058,6 +1058,13 @@ fn dispatch<C: CI>(op: Op, a: &[&[u8]]) -> R<Vec<Vec<u8>>> {
             sig.verify(&pk, arg(a, 4)?).map_err(e)?;
             Ok(vec![])
         }
+        Op::EgSealRaw => {
+            let pk = PublicKey::<C>::try_from(arg(a, 0)?).map_err(e)?;
+            let m = sk_lenient::<C>(arg(a, 1)?)?;
+            let gen = PublicKey::<C>::try_from(arg(a, 2)?).map_err(e)?.0;
+            let (c1, c2, mp, bp, ch) = <C as BlsElGamal>::seal_scalar_with_proof(pk.0, m.0, Some(gen), None, own_rng()).map_err(e)?;
+            Ok(vec![pt(&c1), pt(&c2), Vec::from(&SecretKey::<C>(mp)), Vec::from(&SecretKey::<C>(bp)), Vec::from(&SecretKey::<C>(ch))])
+        }
         Op::MultiSigVerifyKeys => {
             let ms = MultiSignature::<C>::try_from(arg(a, 0)?).map_err(e)?;
             let pks = many(a, 2, |b| PublicKey::<C>::try_from(b).map_err(e))?;
